@@ -1,10 +1,13 @@
 package props
 
 import (
+	"bufio"
 	"bytes"
 	"encoding/binary"
 	"encoding/json"
+	"errors"
 	"fmt"
+	"time"
 
 	"github.com/gregoryv/mq"
 	"pgregory.net/rapid"
@@ -43,6 +46,24 @@ func decodeVia(entry string, frame []byte) (p mq.ControlPacket, err error, pan *
 		case entry == "ReadPacket":
 			rd, _ := readerFor(frame)
 			p, err = mq.ReadPacket(rd)
+		case entry == "ReadPacketOpen":
+			// the complete frame on a stream that stays open (bufio around a
+			// reader that blocks once the data is out)
+			sr := &guard.ScriptReader{Data: frame, Block: true, Release: make(chan struct{})}
+			done := make(chan struct{})
+			go func() {
+				defer close(done)
+				defer func() { _ = recover() }()
+				p, err = mq.ReadPacket(bufio.NewReaderSize(sr, 64))
+			}()
+			select {
+			case <-done:
+				close(sr.Release)
+			case <-time.After(openStreamTimeout):
+				close(sr.Release)
+				<-done
+				p, err = nil, errWaitsBeyondFrame
+			}
 		case entry == "ReadPacket1":
 			steps := make([]guard.Step, len(frame))
 			for i := range steps {
@@ -231,30 +252,7 @@ func genHostileFrame(t *rapid.T) (frame []byte, kind string) {
 		m.ProtocolVersion = rapid.SampledFrom([]uint8{4, 5, 3, 6}).Draw(t, "protover")
 		return ref.Canonical(&m), "connect-other-protocol"
 	case k < 63: // a property that MQTT defines, planted in a packet where it is not allowed
-		m, _, _, tree := genValidFrame(t, false)
-		secs := tree.PropSections()
-		if len(secs) == 0 {
-			// short form without property section: use the full form
-			tree = ref.Tree(&m, ref.Style{Form: 2})
-			secs = tree.PropSections()
-		}
-		if len(secs) == 0 {
-			f, _ := tree.Bytes()
-			return f, "valid"
-		}
-		sec := secs[rapid.IntRange(0, len(secs)-1).Draw(t, "section")]
-		n := rapid.IntRange(1, 3).Draw(t, "nplanted")
-		for i := 0; i < n; i++ {
-			id := rapid.SampledFrom(ref.DefinedPropIDs()).Draw(t, "plantid")
-			if rapid.IntRange(0, 2).Draw(t, "plantsubid") == 0 {
-				id = 0x0b
-			}
-			node := ref.MakeProp(id, rapid.Uint32().Draw(t, "plantseed"))
-			pos := rapid.IntRange(0, len(sec.Kids)).Draw(t, "plantpos")
-			sec.Kids = append(append(append([]*ref.Node{}, sec.Kids[:pos]...), node), sec.Kids[pos:]...)
-		}
-		f, _ := tree.Bytes()
-		return f, "misplaced-property"
+		return genMisplacedProperty(t), "misplaced-property"
 	case k < 67: // a property repeated within one section (second occurrence empty, shorter or longer)
 		m, _, _, tree := genValidFrame(t, false)
 		secs := tree.PropSections()
@@ -310,4 +308,125 @@ func genHostileFrame(t *rapid.T) (frame []byte, kind string) {
 		}
 		return ref.Reframe(first, mb), "bytemut"
 	}
+}
+
+// errWaitsBeyondFrame marks a ReadPacket that did not return although the
+// complete frame had been delivered on a stream that stays open.
+var errWaitsBeyondFrame = errors.New("ReadPacket waits for bytes beyond the frame")
+
+// sentinels are packets decoded once, at the start of a test, one per type;
+// nothing that happens later may change them (pooled decode state, shared
+// scratch). check reports the first difference.
+type sentinels struct {
+	frames [][]byte
+	pkts   []mq.ControlPacket
+	snaps  []model.Packet
+}
+
+func newSentinels() *sentinels {
+	s := &sentinels{}
+	for _, f := range fuzzSeeds() {
+		if len(f) < 2 || f[0]>>4 == 0 {
+			continue
+		}
+		p, err, pan := decodeVia("ReadPacket", f)
+		if pan != nil || err != nil || p == nil {
+			continue
+		}
+		s.frames = append(s.frames, f)
+		s.pkts = append(s.pkts, p)
+		s.snaps = append(s.snaps, api.Observe(p))
+	}
+	return s
+}
+
+func (s *sentinels) check() string {
+	for i, p := range s.pkts {
+		if d := model.Diff(api.Observe(p), s.snaps[i]); d != "" {
+			return fmt.Sprintf("a %s decoded earlier (from %s) changed while other frames were decoded: %s", typeName(s.snaps[i].Type), hx(s.frames[i]), d)
+		}
+	}
+	return ""
+}
+
+// recentPackets keeps the last few packets a test decoded; nothing decoded
+// later may change them.
+type recentPackets struct {
+	entries []string
+	frames  [][]byte
+	pkts    []mq.ControlPacket
+	snaps   []model.Packet
+}
+
+func (rp *recentPackets) add(frame []byte, entry string, p mq.ControlPacket) {
+	if p == nil || len(frame) > 4096 {
+		return
+	}
+	const keep = 8
+	if len(rp.pkts) == keep {
+		rp.frames, rp.pkts, rp.snaps, rp.entries = rp.frames[1:], rp.pkts[1:], rp.snaps[1:], rp.entries[1:]
+	}
+	rp.entries = append(rp.entries, entry)
+	rp.frames = append(rp.frames, append([]byte(nil), frame...))
+	rp.pkts = append(rp.pkts, p)
+	rp.snaps = append(rp.snaps, api.Observe(p))
+}
+
+func (rp *recentPackets) check() string {
+	for i, p := range rp.pkts {
+		if d := model.Diff(api.Observe(p), rp.snaps[i]); d != "" {
+			return fmt.Sprintf("a %s returned earlier (from %s) changed: %s", typeName(rp.snaps[i].Type), hx(rp.frames[i]), d)
+		}
+	}
+	return ""
+}
+
+func (rp *recentPackets) history() []preOp {
+	out := make([]preOp, len(rp.frames))
+	for i, f := range rp.frames {
+		out[i] = preOp{Frame: f, Entry: rp.entries[i]}
+	}
+	return out
+}
+
+// replayHistory decodes the history frames and returns the kept packets.
+func replayHistory(h []preOp) *recentPackets {
+	rp := &recentPackets{}
+	for _, o := range h {
+		p, err, pan := decodeVia(o.Entry, o.Frame)
+		if pan == nil && err == nil {
+			rp.add(o.Frame, o.Entry, p)
+		}
+	}
+	return rp
+}
+
+// genMisplacedProperty draws a valid frame and plants 1..3 properties that
+// MQTT defines but does not allow in that packet (weighted to the
+// Subscription Identifier, which decoders route through a callback).
+func genMisplacedProperty(t *rapid.T) []byte {
+	m, _, _, tree := genValidFrame(t, false)
+	secs := tree.PropSections()
+	if len(secs) == 0 {
+		// short form without property section: use the full form
+		tree = ref.Tree(&m, ref.Style{Form: 2})
+		secs = tree.PropSections()
+	}
+	if len(secs) == 0 {
+		f, _ := tree.Bytes()
+		return f
+	}
+	sec := secs[rapid.IntRange(0, len(secs)-1).Draw(t, "section")]
+	n := rapid.IntRange(1, 3).Draw(t, "nplanted")
+	for i := 0; i < n; i++ {
+		id := rapid.SampledFrom(ref.DefinedPropIDs()).Draw(t, "plantid")
+		if rapid.IntRange(0, 2).Draw(t, "plantsubid") == 0 {
+			id = 0x0b
+		}
+		node := ref.MakeProp(id, rapid.Uint32().Draw(t, "plantseed"))
+		pos := rapid.IntRange(0, len(sec.Kids)).Draw(t, "plantpos")
+		sec.Kids = append(append(append([]*ref.Node{}, sec.Kids[:pos]...), node), sec.Kids[pos:]...)
+	}
+	f, _ := tree.Bytes()
+	return f
 }
